@@ -42,7 +42,10 @@ OnlyKnownOutcomes == T.out \in {"value", "none", "TimeoutExpired", "ValueError"}
 \* later calls: cached value, no system call
 Cached == T.again # "skipped" => (T.again = "same" /\ T.againsyscalls = 0)
 
+\* ... and a negative timeout raises ValueError also on an object that holds a cached status
+NegativeAlways == T.negafter \in {"skipped", "ValueError"}
+
 Clauses == <<OnlyKnownOutcomes, NeverEarly, TimeoutHonoured, Polls, ZeroNeverSleeps, Negative,
-             NegativeBeforeSyscalls, NeverExisted, Prompt, Cached>>
+             NegativeBeforeSyscalls, NeverExisted, Prompt, Cached, NegativeAlways>>
 Accepted == (\A i \in DOMAIN Clauses : Clauses[i]) \/ PrintT(<<"REJECTED", idx, Clauses>>)
 =============================================================================
